@@ -129,3 +129,11 @@ add('C06', 'model-based history testing (three-state lock model) with byte-level
     'wiped after it.',
     'Trusted: refpgp.keys/s2k/sym; the pooled secret integers. Detectors have positive controls (an unprotected key must trip both) checked on every run.',
     'DESIGN.md 4/C06')
+add('C08', 'round-trip property testing of API-built objects packet by packet (with trailing data) and generative testing of 40 reference packet builders x 8 header forms with framing, re-acceptance, field-snapshot and fixed-point oracles',
+    '(A) every packet of exports of API-built signatures (24 kinds x options), keys (recipes of C14, private/public/protected/edited) and messages (literal/compressed/signed/encrypted) is re-parsed with 0/1/17 '
+    'trailing octets: exact consumption, identical re-serialisation, len() agreement. (B) reference-built packets of every tag incl. unassigned ones, unknown versions and algorithms, every key algorithm x '
+    'S2K usage x specifier, GNU-dummy, generated signature subpackets in both areas with non-minimal lengths, arbitrary literal metadata, invalid UTF-8 user ids, nested compression, in 8 header forms '
+    '(new 1/2/5, old 1/2/4, partial, indeterminate), plus the repository\'s packet fixtures: accepted packets must re-serialise to exactly one well-framed packet, be accepted again, keep their field '
+    'values and be a fixed point.',
+    'Trusted: refpgp.wire framing; a generic attribute snapshot for field equality.',
+    'DESIGN.md 4/C08')
